@@ -528,7 +528,7 @@ def rule_N1(src, lo, hi, enabled):
                         lets.append("let %s = %s.%d;" % (p, var, idx))
                 out.append(("N1", toks[i + 1].start, toks[c].end, var))
                 expr = src[toks[c + 2].start:toks[j].start].strip()
-                if not expr.endswith(")"):
+                if not expr.endswith(")") and (expr.startswith("&") or any(p.startswith("&") for p in parts)):
                     # `for .. in &map` / `in map_ref`: Verus needs the explicit iterator
                     out.append(("N1", toks[c + 2].start, toks[j - 1].end, "(%s).iter()" % expr.lstrip("&")))
                 out.append(("N1", toks[j].end, toks[j].end, " " + " ".join(lets)))
@@ -638,7 +638,9 @@ def rule_N3(src, lo, hi, enabled):
                 expr = src[toks[eq].end:toks[amp].start].strip()
                 cond = src[toks[amp].end:toks[brace].start].strip()
                 if "let " in cond:
-                    raise VxError("N3: nested let-chain unsupported")
+                    # left as written: unless rule P cuts it away the file does not compile -> UNDECIDED
+                    i += 1
+                    continue
                 has_else = bc + 1 < n and toks[bc + 1].text == "else"
                 out.append(("N3", toks[i].start, toks[brace].start, "match %s { %s if %s => " % (expr, pat, cond)))
                 if has_else:
